@@ -66,7 +66,8 @@ int sbdf_cs_add_property(sbdf_columnslice* out, char const* name, sbdf_valuearra
 
 	cap = sbdf_calculate_array_capacity(out->prop_cnt);
 
-	if (cap == out->prop_cnt)
+	/* a slice built by sbdf_cs_read has arrays of exactly prop_cnt entries */
+	if (cap == out->prop_cnt || out->owned)
 	{
 		int new_cap = sbdf_calculate_array_capacity(1 + out->prop_cnt);
 		if ((error = sbdf_alloc((void**)&out->properties, new_cap * sizeof(void*))))
